@@ -24,6 +24,24 @@ def classify(c, ob, k, spec, spec_ret=None):
             'observed_result': [b['ret'], b['payload']]}
 
 def analyse(cases, obs, bindir, tag, findings, broken, stats):
+    # layer-kind pattern cases (no operations): one combined evaluation each; a failure is split afterwards
+    pats = [c for c in cases if oc.is_pattern(c)]
+    cases = [c for c in cases if not oc.is_pattern(c)]
+    if pats:
+        pf, pe = oc.eval_bools('c10_pat_' + tag, [oc.expr_pattern(c, obs[c['id']]) for c in pats])
+        if pe: broken.append({'kind': 'correspondence', 'name': 'Coq evaluation of the pattern cases failed', 'log': pe[0]['log']})
+        stats['evals'] += len(pats); stats['tie_cases'] += len(pats); stats['patterns'] = stats.get('patterns', 0) + len(pats)
+        bad = [pats[i] for i in sorted(pf)]
+        if bad:
+            uf, _ = oc.eval_bools('c10_patu_' + tag, [oc.expr_union(c, obs[c['id']]) for c in bad])
+            for i, c in enumerate(bad):
+                if i in uf:
+                    if len([f for f in findings if f['sig'].get('class') == 'union']) < 12:
+                        findings.append({'what': 'the initial view is not the overlayfs union of the layers (layer kinds top to bottom for name f: %s)' % c['id'][2:],
+                                         'sig': {'class': 'union'}, 'input': oc.replay_input(c, -1), 'observed_view': obs[c['id']]['view0']})
+                elif len([b for b in broken if b.get('kind') == 'correspondence']) < 5:
+                    broken.append({'kind': 'correspondence', 'name': 'Model/Overlay.v scan vs OverlayFs on a pattern case', 'case': oc.replay_input(c, -1),
+                                   'implementation': obs[c['id']]['view0']})
     # tie: model = implementation
     tie_fail, errs = oc.eval_bools('c10_tie_' + tag, [oc.expr_tie(c, obs[c['id']]) for c in cases])
     if errs: broken.append({'kind': 'correspondence', 'name': 'Coq evaluation of the cases failed', 'log': errs[0]['log']})
@@ -114,7 +132,7 @@ def run_check(tier, seed):
         broken.append({'kind': 'harness-build', 'log': out[-3000:]})
     else:
         n = 40 if tier == "quick" else 1500
-        cases, obs, badh = oc.explore(PROP, seed, n, False, bindir, 'c10')
+        cases, obs, badh = oc.explore(PROP, seed, n, False, bindir, 'c10', patterns=('full' if tier == 'thorough' else True))
         if badh: broken.append({'kind': 'harness', 'name': 'harness output incomplete or layers not materialised as generated', 'cases': badh[:5]})
         analyse(cases, obs, bindir, 'a', findings, broken, stats)
         if broken and not [f for f in findings if not finding_known(f, known_findings(PROP))]:
@@ -123,11 +141,12 @@ def run_check(tier, seed):
             b2 = []
             analyse(cases2, obs2, bindir, 'b', findings, b2, stats)
         ev.cov['samples'] = [{'layers': {str(k): oc.ser(t) for k, t in c['layers'].items()}, 'ops': [oc.op_line(o) for o in c['ops'][:6]],
-                              'results': [b['ret'] for b in obs[c['id']]['ops'][:6]], 'initial_view': obs[c['id']]['view0']} for c in cases[7:10]]
+                              'results': [b['ret'] for b in obs[c['id']]['ops'][:6]], 'initial_view': obs[c['id']]['view0']} for c in [c for c in cases if not oc.is_pattern(c)][7:10]]
     ev.cov['evaluations'] = stats['evals']
     ev.cov['distinct_nontrivial'] = len(stats['shapes'])
     ev.cov['rule'] = ('evaluations = operations + initial views compared (model vs implementation and ordinary-file-system predicate); '
                       'distinct_nontrivial = number of distinct sets of (modifying operation kind that succeeded) per history')
     ev.cov['op_result_histogram'] = dict(sorted(stats['hist'].items()))
     ev.cov['model_vs_impl_cases'] = stats['tie_cases']
+    ev.cov['pattern_cases'] = stats.get('patterns', 0)
     return finish(ev, PROP, findings, broken)
